@@ -31,25 +31,38 @@ Proof.
   rewrite !nth_error_app1 by lia. reflexivity.
 Qed.
 
+(** trimming trailing whitespace only looks at the bytes before [ve] *)
+Lemma trim_end_le all vs : forall ve, trim_end all vs ve <= ve.
+Proof.
+  induction ve as [|p IH]; [cbn [trim_end]; lia|]. cbn [trim_end].
+  destruct (Nat.ltb vs (S p) && match nth_error all p with Some c => ows c | None => false end)%bool; lia.
+Qed.
+
+Lemma trim_end_local (pre x y : bytes) vs : forall ve, ve <= length pre ->
+  trim_end (pre ++ x) vs ve = trim_end (pre ++ y) vs ve.
+Proof.
+  induction ve as [|p IH]; intros H; [reflexivity|]. cbn [trim_end].
+  rewrite !nth_error_app1 by lia. rewrite IH by lia. reflexivity.
+Qed.
+
 Lemma bl_end_nonempty ir x k : bl_end ir x = Some k -> x <> [].
 Proof. intros H ->. discriminate. Qed.
 
-Lemma next_is_space_local (pre : bytes) byte rest extra : rest <> [] ->
-  next_is_space (pre ++ byte :: rest ++ extra) (length pre) = next_is_space (pre ++ byte :: rest) (length pre).
+Lemma next_is_ows_local (pre : bytes) byte rest extra : rest <> [] ->
+  next_is_ows (pre ++ byte :: rest ++ extra) (length pre) = next_is_ows (pre ++ byte :: rest) (length pre).
 Proof.
-  intros Hne. unfold next_is_space. rewrite (nth_error_app2 pre (byte :: rest ++ extra)) by lia.
+  intros Hne. unfold next_is_ows. rewrite (nth_error_app2 pre (byte :: rest ++ extra)) by lia.
   rewrite (nth_error_app2 pre (byte :: rest)) by lia.
   replace (S (length pre) - length pre) with 1 by lia.
   destruct rest as [|r0 rest]; [contradiction|]. reflexivity.
 Qed.
 
-Lemma pns_app ir x y k : bl_end ir x = Some k -> position_non_space (x ++ y) = position_non_space x.
+Lemma pns_app ir x y k : bl_end ir x = Some k -> position_non_ows (x ++ y) = position_non_ows x.
 Proof.
   revert ir k; induction x as [|c x IH]; intros ir k H; [discriminate|].
-  cbn [app position_non_space]. destruct (N.eqb c SP) eqn:Esp; [|reflexivity].
+  cbn [app position_non_ows]. destruct (ows c) eqn:Esp; [|reflexivity].
   cbn [bl_end] in H.
-  assert (Hlf : N.eqb c LF = false) by (unfold SP, LF in *; lia).
-  assert (Hcr : N.eqb c CR = false) by (unfold SP, CR in *; lia).
+  destruct (ows_spec _ Esp) as [Hcr [Hlf _]].
   rewrite Hlf, Hcr in H. destruct (bl_end false x) as [k'|] eqn:E; [|discriminate].
   rewrite (IH false k' E). reflexivity.
 Qed.
@@ -106,20 +119,22 @@ Proof.
       destruct (slice_get ns ne (pre ++ byte :: rest)) as [raw|]; [|reflexivity].
       destruct (header_name raw) as [name|]; [|reflexivity].
       rewrite (prev_is_cr_local pre (byte :: rest ++ extra) (byte :: rest)).
-      rewrite (slice_chk_local pre (byte :: rest ++ extra) (byte :: rest) vs
-                 (if prev_is_cr (pre ++ byte :: rest) (length pre) then length pre - 1 else length pre))
-        by (destruct (prev_is_cr (pre ++ byte :: rest) (length pre)); lia).
+      set (ve := if prev_is_cr (pre ++ byte :: rest) (length pre) then length pre - 1 else length pre).
+      assert (Hve : ve <= length pre) by (subst ve; destruct (prev_is_cr (pre ++ byte :: rest) (length pre)); lia).
+      rewrite (trim_end_local pre (byte :: rest ++ extra) (byte :: rest) vs ve Hve).
+      pose proof (trim_end_le (pre ++ byte :: rest) vs ve) as Hte.
+      rewrite (slice_chk_local pre (byte :: rest ++ extra) (byte :: rest) vs (trim_end (pre ++ byte :: rest) vs ve)) by lia.
       destruct (slice_chk vs _ (pre ++ byte :: rest)) as [v|e|]; [|reflexivity|reflexivity].
       destruct (hvalue_ok v); [|reflexivity]. apply Hstep; [lia|exact Hbl'|lia].
     + assert (Hc : N.eqb byte COLON = false) by (unfold LF, COLON in *; lia).
-      assert (Hs : N.eqb byte SP = false) by (unfold LF, SP in *; lia).
+      assert (Hs : ows byte = false) by (unfold ows, LF, SP, TAB in *; lia).
       rewrite Hc, Hs. apply Hstep; [lia|exact Hbl'|lia].
   - cbn [andb]. pose proof (bl_other _ _ _ _ Ecr Elf Hbl) as Hbl'.
     destruct inval; [apply Hstep; [lia|exact Hbl'|lia]|].
     destruct (N.eqb byte COLON) eqn:Ec.
-    + rewrite (next_is_space_local pre byte rest extra (bl_end_nonempty _ _ _ Hbl')).
-      destruct (next_is_space (pre ++ byte :: rest) (length pre)); apply Hstep; (lia || exact Hbl').
-    + destruct (N.eqb byte SP) eqn:Es; [|apply Hstep; [lia|exact Hbl'|lia]].
+    + rewrite (next_is_ows_local pre byte rest extra (bl_end_nonempty _ _ _ Hbl')).
+      destruct (next_is_ows (pre ++ byte :: rest) (length pre)); apply Hstep; (lia || exact Hbl').
+    + destruct (ows byte) eqn:Es; [|apply Hstep; [lia|exact Hbl'|lia]].
       rewrite (value_start_from_local pre byte rest extra _ _ Hbl). apply Hstep; [lia|exact Hbl'|lia].
 Qed.
 
@@ -142,15 +157,15 @@ Proof.
         destruct (hvalue_ok v); [|discriminate].
         apply IH in H; [cbn [length]; lia|lia|exact Hbl'].
       * assert (Hc : N.eqb byte COLON = false) by (unfold LF, COLON in *; lia).
-        assert (Hs : N.eqb byte SP = false) by (unfold LF, SP in *; lia).
+        assert (Hs : ows byte = false) by (unfold ows, LF, SP, TAB in *; lia).
         rewrite Hc, Hs in H. apply IH in H; [cbn [length]; lia|lia|exact Hbl'].
     + cbn [Nat.eqb andb] in H. inversion H; subst. unfold irb in Hbl. cbn [Nat.eqb bl_end] in Hbl.
       rewrite Elf in Hbl. inversion Hbl as [Hl]. cbn [length]. lia.
   - cbn [andb] in H. pose proof (bl_other _ _ _ _ Ecr Elf Hbl) as Hbl'.
     destruct inval; [apply IH in H; [cbn [length]; lia|lia|exact Hbl']|].
     destruct (N.eqb byte COLON).
-    + destruct (next_is_space all pos); apply IH in H; try (cbn [length]; lia); try lia; exact Hbl'.
-    + destruct (N.eqb byte SP); apply IH in H; try (cbn [length]; lia); try lia; exact Hbl'.
+    + destruct (next_is_ows all pos); apply IH in H; try (cbn [length]; lia); try lia; exact Hbl'.
+    + destruct (ows byte); apply IH in H; try (cbn [length]; lia); try lia; exact Hbl'.
 Qed.
 
 (** * The request line *)
